@@ -53,6 +53,12 @@ func genLifePlan(seed uint64, thorough bool) *Plan {
 				if isBlockingCmd(a[0]) {
 					a = []string{"PING"}
 				}
+				if setsExpiry(a) {
+					// (the clock may jump between the execution of a command and the
+					// arrival of its reply, which is when the bystander's model runs it:
+					// a deadline would be computed from two different instants)
+					a = []string{"GET", g.key()}
+				}
 				items = append(items, Item{Args: bs(a...), Tag: "bystander"})
 			}
 			items = append(items, Item{Args: bs("PING"), Tag: "bystander"})
